@@ -58,7 +58,7 @@ def b2s(b):
 def compare(chk, label, cases, expected, outs, *, key_of=None, limit=8, nontrivial=None, known=None):
     """expected[i] is compared with outs[i] by deep_diff; reports at most `limit` violations.
     known: optional callable(case, msg) -> key of an open known finding or None."""
-    nfail = 0
+    nfail = nnew = 0
     for i, (c, e, o) in enumerate(zip(cases, expected, outs)):
         chk.count_case(c, nontrivial(c) if nontrivial else True)
         chk.cov["traces_validated_against_impl"] += 1
@@ -72,12 +72,14 @@ def compare(chk, label, cases, expected, outs, *, key_of=None, limit=8, nontrivi
         if msg:
             nfail += 1
             k = known(c, msg) if known else None
-            if k is not None or nfail <= limit:
+            if k is None:
+                nnew += 1
+            if k is not None or nnew <= limit:
                 chk.violation("%s case %s: %s" % (label, json.dumps(c)[:600], msg),
                               {"case": c, "expected": e, "actual": o, "msg": msg},
                               key=k if k is not None else (key_of(c) if key_of else json.dumps(c, sort_keys=True)))
     if nfail:
-        vkit.log("[%s] %d/%d cases differ" % (label, nfail, len(cases)))
+        vkit.log("[%s] %d/%d cases differ (%d not attributed to a known finding)" % (label, nfail, len(cases), nnew))
     return nfail
 
 
@@ -236,3 +238,27 @@ def str_case(r):
 def str_expected(r):
     return {"cmp": _sign_exp(r["cmp"]), "ncmp": [_sign_exp(v) for v in r["ncmp"]], "str": r["str"],
             "rtrim": r["rtrim"], "snp": r["snp"]}
+
+
+# ------------------------------------------------------------------ C40
+def pton_case(r, af):
+    return {"op": "pton", "af": af, "t": r["t"]}
+
+
+def pton_check_platform(recs, outs, what):
+    """reference vs platform inet_pton: a disagreement is an error of the specification (exit 2),
+    except where the property itself allows more than the platform (IPv4 leading zeros)."""
+    for r, o in zip(recs, outs):
+        if r["st"] == "open" or r.get("lz") or not isinstance(o, dict) or "pl" not in o:
+            continue
+        want = 1 if r["st"] == "ok" else 0
+        if o["pl"]["rc"] != want or (want and o["pl"]["a"] != r["a"]):
+            raise vkit.InfraError("%s: the reference disagrees with the platform's inet_pton on %r: reference %s %s, "
+                                  "platform %s (specification error, not a finding)"
+                                  % (what, b2s(r["t"]), r["st"], r["a"], o["pl"]))
+
+
+def pton_expected(r):
+    if r["st"] == "ok":
+        return {"le": {"rc": 1, "a": r["a"]}}
+    return {"le": {"rc": 0}}
